@@ -164,6 +164,14 @@ class FloatLiteral(FilterExpressionLiteral[float]):
 
     __slots__ = ()
 
+    def __str__(self) -> str:
+        text = repr(self.value).lower()
+        if "e" in text and "." not in text:
+            # `1e+22` would be read back as an integer literal. Keep it a float.
+            mantissa, exponent = text.split("e")
+            text = f"{mantissa}.0e{exponent}"
+        return text
+
 
 class NullLiteral(FilterExpressionLiteral[None]):
     """A null literal."""
